@@ -194,7 +194,8 @@ def register(R):
         f'{TF}.result', props=['C07'], params={},
         checks=lambda c: {'no_cancel_on_normal_return': B(len(calls(c.trace, '.cancel')) == 0)},
         raises={'KeyboardInterrupt': tf_result_kbi,
-                'Exception': lambda c: {'not_cancelled_by_result': B(len(calls(c.trace, '.cancel')) == 0)}},
+                'Exception': lambda c: {'not_cancelled_by_result': B(len(calls(c.trace, '.cancel')) == 0)},
+                '$stored': lambda c: {'not_cancelled_by_result': B(len(calls(c.trace, '.cancel')) == 0)}},
     )
     R.contract(
         f'{TF}.cancel', props=['C07'], params={},
